@@ -14,7 +14,7 @@ import time
 from dv import core
 from dv.core import cz, cnat, cbool, clist, copt, cpair
 
-HEADER = ("From DV Require Import Model.PyPrims Model.C11Model Model.C11W7Model.\n"
+HEADER = ("From DV Require Import Model.PyPrims Model.C11Model Model.C11W7Model Model.C11W8Model.\n"
           "From Coq Require Import ZArith.\nOpen Scope nat_scope.")
 
 POOLS = [
@@ -46,6 +46,12 @@ def _install_hook():
 
 class Skip(Exception):
     pass
+
+
+# wave 8: the calls that are also issued with an additional misspelt keyword (["BadKw", <op>])
+BADKW_OPS = ("Append", "Insert", "AppendM", "InsertM", "MigrateTree", "ReconstructTree", "MigrateList", "ReconstructList",
+             "MigrateMat", "ReconstructMat", "MigrateTreeM", "ReconstructTreeM", "MigrateListM", "ReconstructListM",
+             "MigrateMatM", "ReconstructMatM", "Unify")
 
 
 def nest(rng_bits, labels):
@@ -259,10 +265,17 @@ class World:
         body = "".join("  TREE t%d = %s;\n" % (k, s) for k, s in enumerate(strs))
         return "#NEXUS\nBEGIN TREES;\n" + body + "END;\n", "nexus"
 
-    def do(self, op):
+    def do(self, op, extra=None):
         dp = self.dp
         name = op[0]
         nss, trees, lists, mats, dss = self.nss, self.trees, self.lists, self.mats, self.dss
+        if name == "BadKw":
+            # wave 8: the same call with one more keyword, which the API does not know (the documented keyword
+            # is unify_taxa_by_label): TypeError, and nothing at all has changed
+            if op[1][0] not in BADKW_OPS:
+                raise RuntimeError("BadKw around %r" % (op[1],))
+            return self.do(op[1], extra={"unify_taxa_by_labels": True})
+        X = extra or {}
         if name == "NewNs":
             return ["OId", self.reg_ns(dp.TaxonNamespace(is_case_sensitive=op[1]))]
         if name == "NewTaxon":
@@ -278,10 +291,10 @@ class World:
         if name == "NewDs":
             return ["OId", self.reg_ds(dp.DataSet())]
         if name == "Append":
-            lists[op[1]].append(trees[op[2]], **self._strat_kw(op[3]))
+            lists[op[1]].append(trees[op[2]], **self._strat_kw(op[3]), **X)
             return ["OUnit"]
         if name == "Insert":
-            lists[op[1]].insert(op[2], trees[op[3]], **self._strat_kw(op[4]))
+            lists[op[1]].insert(op[2], trees[op[3]], **self._strat_kw(op[4]), **X)
             return ["OUnit"]
         if name == "Extend":
             if op[2][0] == "SrcList" and op[2][1] == op[1]:
@@ -333,10 +346,10 @@ class World:
             self.removed.append((trees[op[2]], tl.taxon_namespace))
             return ["OUnit"]
         if name == "MigrateList":
-            lists[op[1]].migrate_taxon_namespace(nss[op[2]], unify_taxa_by_label=op[3])
+            lists[op[1]].migrate_taxon_namespace(nss[op[2]], unify_taxa_by_label=op[3], **X)
             return ["OUnit"]
         if name == "ReconstructList":
-            lists[op[1]].reconstruct_taxon_namespace(unify_taxa_by_label=op[2])
+            lists[op[1]].reconstruct_taxon_namespace(unify_taxa_by_label=op[2], **X)
             return ["OUnit"]
         if name == "UpdateList":
             lists[op[1]].update_taxon_namespace()
@@ -345,10 +358,10 @@ class World:
             lists[op[1]].purge_taxon_namespace()
             return ["OUnit"]
         if name == "MigrateTree":
-            trees[op[1]].migrate_taxon_namespace(nss[op[2]], unify_taxa_by_label=op[3])
+            trees[op[1]].migrate_taxon_namespace(nss[op[2]], unify_taxa_by_label=op[3], **X)
             return ["OUnit"]
         if name == "ReconstructTree":
-            trees[op[1]].reconstruct_taxon_namespace(unify_taxa_by_label=op[2])
+            trees[op[1]].reconstruct_taxon_namespace(unify_taxa_by_label=op[2], **X)
             return ["OUnit"]
         if name == "UpdateTree":
             trees[op[1]].update_taxon_namespace()
@@ -368,10 +381,10 @@ class World:
             mats[op[1]][key] = self._newseq()
             return ["OUnit"]
         if name == "MigrateMat":
-            mats[op[1]].migrate_taxon_namespace(nss[op[2]], unify_taxa_by_label=op[3])
+            mats[op[1]].migrate_taxon_namespace(nss[op[2]], unify_taxa_by_label=op[3], **X)
             return ["OUnit"]
         if name == "ReconstructMat":
-            mats[op[1]].reconstruct_taxon_namespace(unify_taxa_by_label=op[2])
+            mats[op[1]].reconstruct_taxon_namespace(unify_taxa_by_label=op[2], **X)
             return ["OUnit"]
         if name == "UpdateMat":
             mats[op[1]].update_taxon_namespace()
@@ -416,7 +429,7 @@ class World:
             return ["OUnit"]
         if name == "Unify":
             dss[op[1]].unify_taxon_namespaces(taxon_namespace=None if op[2] is None else nss[op[2]],
-                                              attach_taxon_namespace=op[3])
+                                              attach_taxon_namespace=op[3], **X)
             return ["OUnit"]
         if name == "FreeTaxon":
             return ["OId", self.tid(dp.Taxon(label=self.pool[op[1]]))]
@@ -433,28 +446,28 @@ class World:
             tl = lists[op[1]]
             return ["OId", self.reg_list(tl.clone(0) if op[2] == "clone" else copy.copy(tl))]
         if name == "AppendM":
-            lists[op[1]].append(trees[op[2]], taxon_mapping_memo=self.memos[op[4]], **self._strat_kw(op[3]))
+            lists[op[1]].append(trees[op[2]], taxon_mapping_memo=self.memos[op[4]], **self._strat_kw(op[3]), **X)
             return ["OUnit"]
         if name == "InsertM":
-            lists[op[1]].insert(op[2], trees[op[3]], taxon_mapping_memo=self.memos[op[5]], **self._strat_kw(op[4]))
+            lists[op[1]].insert(op[2], trees[op[3]], taxon_mapping_memo=self.memos[op[5]], **self._strat_kw(op[4]), **X)
             return ["OUnit"]
         if name == "MigrateTreeM":
-            trees[op[1]].migrate_taxon_namespace(nss[op[2]], unify_taxa_by_label=op[3], taxon_mapping_memo=self.memos[op[4]])
+            trees[op[1]].migrate_taxon_namespace(nss[op[2]], unify_taxa_by_label=op[3], taxon_mapping_memo=self.memos[op[4]], **X)
             return ["OUnit"]
         if name == "ReconstructTreeM":
-            trees[op[1]].reconstruct_taxon_namespace(unify_taxa_by_label=op[2], taxon_mapping_memo=self.memos[op[3]])
+            trees[op[1]].reconstruct_taxon_namespace(unify_taxa_by_label=op[2], taxon_mapping_memo=self.memos[op[3]], **X)
             return ["OUnit"]
         if name == "MigrateListM":
-            lists[op[1]].migrate_taxon_namespace(nss[op[2]], unify_taxa_by_label=op[3], taxon_mapping_memo=self.memos[op[4]])
+            lists[op[1]].migrate_taxon_namespace(nss[op[2]], unify_taxa_by_label=op[3], taxon_mapping_memo=self.memos[op[4]], **X)
             return ["OUnit"]
         if name == "ReconstructListM":
-            lists[op[1]].reconstruct_taxon_namespace(unify_taxa_by_label=op[2], taxon_mapping_memo=self.memos[op[3]])
+            lists[op[1]].reconstruct_taxon_namespace(unify_taxa_by_label=op[2], taxon_mapping_memo=self.memos[op[3]], **X)
             return ["OUnit"]
         if name == "MigrateMatM":
-            mats[op[1]].migrate_taxon_namespace(nss[op[2]], unify_taxa_by_label=op[3], taxon_mapping_memo=self.memos[op[4]])
+            mats[op[1]].migrate_taxon_namespace(nss[op[2]], unify_taxa_by_label=op[3], taxon_mapping_memo=self.memos[op[4]], **X)
             return ["OUnit"]
         if name == "ReconstructMatM":
-            mats[op[1]].reconstruct_taxon_namespace(unify_taxa_by_label=op[2], taxon_mapping_memo=self.memos[op[3]])
+            mats[op[1]].reconstruct_taxon_namespace(unify_taxa_by_label=op[2], taxon_mapping_memo=self.memos[op[3]], **X)
             return ["OUnit"]
         raise RuntimeError("unknown op %r" % (op,))
 
@@ -500,7 +513,8 @@ def _holders(w, t):
 
 
 def gen_case(rng, maxlen, hazard=0.12, shape=None):
-    """shape: None (mixed), "copy" (shallow-copy scenario first), "memo" (caller-supplied memo scenario first)"""
+    """shape: None (mixed), "copy" (shallow-copy scenario first), "memo" (caller-supplied memo scenario first),
+    "dup" (duplicate-label namespace + mixed import routes), "refuse" (refused calls + corrected retries)"""
     pool = sorted(set(rng.choice(POOLS)))
     w = World(pool)
     ops = []
@@ -543,6 +557,10 @@ def gen_case(rng, maxlen, hazard=0.12, shape=None):
         _shallow_copy_scenario(rng, w, emit)
     elif shape == "memo" or (shape is None and x < 0.26):
         _memo_scenario(rng, w, emit)
+    elif shape == "dup" or (shape is None and x < 0.40):
+        _dup_label_scenario(rng, w, emit)
+    elif shape == "refuse" or (shape is None and x < 0.52):
+        _refusal_scenario(rng, w, emit)
     elif shape is None and R() < 0.3:
         _shared_source_scenario(rng, w, emit)
     elif shape is None and R() < 0.2:
@@ -896,7 +914,270 @@ def _add_then_reconstruct_scenario(rng, w, emit):
     # else: left to the random tail of the history
 
 
+def _variants(pool, l):
+    return [i for i, q in enumerate(pool) if q.lower() == pool[l].lower()]
+
+
+def _dup_label_scenario(rng, w, emit):
+    """wave 8 (seeded/C11-10): a list whose namespace holds SEVERAL members with equal labels (equal under the
+    namespace's own case rule) - the documented outcome of taxon_import_strategy='add' for two foreign trees over
+    the same labels, or for one case-sensitively built tree carrying 'A' and 'a' added to a case-insensitive
+    list - and then a MIX of migrate-style imports (append / insert / item assignment / extend, slice assignment
+    of plain trees / Tree.migrate, TreeList.migrate, CharacterMatrix.migrate) and clone-style imports (extend / += /
+    + / slice assignment from a TreeList) and reads of trees carrying those labels.  Every route looks the label
+    up with require_taxon: the FIRST member that matches."""
+    R = rng.random
+    pool = w.pool
+    emit(["NewNs", R() < 0.25])
+    n = len(w.nss) - 1
+    tcs = bool(w.nss[n].is_case_sensitive)
+    emit(["NewList", n])
+    L = len(w.lists) - 1
+    labs = _distinct_labels(rng, pool, False)[:rng.randint(2, 4)]
+
+    def source(case_sensitive, variants, sub=None):
+        """a fresh namespace with taxa over (a subset of) the labels; returns the taxon ids"""
+        emit(["NewNs", case_sensitive])
+        s_ = len(w.nss) - 1
+        ids, seen = [], set()
+        for x in (sub if sub is not None else labs):
+            alts = _variants(pool, x) if variants else [x]
+            rng.shuffle(alts)
+            for y in alts[:rng.choice([1, 1, 2]) if (variants and case_sensitive) else 1]:
+                k = pool[y] if case_sensitive else pool[y].lower()
+                if k in seen:
+                    continue
+                seen.add(k)
+                emit(["NewTaxon", s_, y])
+                ids.append(len(w.taxa()) - 1)
+        rng.shuffle(ids)
+        return s_, ids
+
+    # --- the duplicates: two or three trees ADDED as they are
+    for k in range(rng.choice([2, 2, 3])):
+        s_, ids = source(R() < (0.5 if not tcs else 0.3), R() < 0.5)
+        if not ids:
+            continue
+        emit(["MkTree", s_, ids])
+        t = len(w.trees) - 1
+        if R() < 0.6:
+            emit(["Append", L, t, ["SAdd"]])
+        else:
+            emit(["Insert", L, rng.choice([0, 1, -1, 4]), t, ["SAdd"]])
+        if w.naive():
+            return
+    # --- the mix
+    for _ in range(rng.randint(2, 5)):
+        if w.naive():
+            return
+        sub = [x for x in labs if R() < 0.8] or labs[:1]
+        if R() < 0.3:
+            extra = [i for i in range(len(pool)) if all(pool[i].lower() != pool[x].lower() for x in labs)]
+            if extra:
+                sub = sub + [rng.choice(extra)]
+        s_, ids = source(R() < 0.3, R() < 0.5, sub)
+        if not ids:
+            continue
+        x = R()
+        if x < 0.42:
+            # clone-style: a TreeList of one or two trees over the source namespace
+            emit(["NewList", s_])
+            sl = len(w.lists) - 1
+            for _k in range(rng.choice([1, 1, 2])):
+                part = [t for t in ids if R() < 0.85] or ids[:1]
+                rng.shuffle(part)
+                emit(["NewTreeIn", sl, None, part])
+            y = R()
+            if y < 0.3:
+                emit(["Extend", L, ["SrcList", sl]])
+            elif y < 0.55:
+                emit(["IAdd", L, ["SrcList", sl]])
+            elif y < 0.75:
+                emit(["Add", L, ["SrcList", sl]])
+            elif y < 0.93:
+                emit(["SetSlice", L, rng.choice([None, 0, 1, -1]), rng.choice([None, 0, 1, 2]), ["SrcList", sl]])
+            else:
+                emit(["MigrateList", sl, n, True])
+        elif x < 0.8:
+            emit(["MkTree", s_, ids])
+            t = len(w.trees) - 1
+            y = R()
+            if y < 0.3:
+                emit(["Append", L, t, ["SMigrate", True]])
+            elif y < 0.5:
+                emit(["Insert", L, rng.choice([0, 1, -1, 7]), t, ["SMigrate", True]])
+            elif y < 0.62 and len(w.lists[L]):
+                emit(["SetItem", L, rng.choice([0, -1]), t])
+            elif y < 0.74:
+                emit([rng.choice(["Extend", "IAdd"]), L, ["SrcTrees", [t]]])
+            elif y < 0.84:
+                emit(["SetSlice", L, rng.choice([None, 0, 1]), rng.choice([None, 0, 1]), ["SrcTrees", [t]]])
+            elif y < 0.94:
+                emit(["MigrateTree", t, n, True])
+            else:
+                emit(["Add", L, ["SrcTrees", [t]]])
+        elif x < 0.9:
+            cs = bool(w.nss[n].is_case_sensitive)
+            spec = []
+            seen = set()
+            for q in sub:
+                k = pool[q] if cs else pool[q].lower()
+                if k not in seen:
+                    seen.add(k)
+                    spec.append(q)
+            emit(["ReadList", L, rng.choice(["Newick", "Nexus"]), cs, None, [spec], rng.randrange(50)])
+        else:
+            # a matrix over the source namespace, one row per label (no two equal under the target's rule)
+            emit(["NewMat", s_])
+            m = len(w.mats) - 1
+            seen = set()
+            for t in ids:
+                k = w.taxa()[t].label
+                k = k if tcs else k.lower()
+                if k not in seen:
+                    seen.add(k)
+                    emit(["NewSeq", m, t])
+            emit(["MigrateMat", m, n, True])
+    if R() < 0.3 and not w.naive():
+        emit(["ReconstructList", L, True])
+
+
+def _refusal_scenario(rng, w, emit):
+    """wave 8 (seeded/C11-9): calls the API REFUSES with a documented exception - an unknown taxon_import_strategy
+    string, a misspelt keyword (unify_taxa_by_labels), a namespace argument that is not the container's own /
+    the attached one, a tree under a foreign namespace offered to a TreeArray, a tree that is not a member, an
+    index out of range, a taxon outside the namespace - each followed by the CORRECTED call on the same objects.
+    After the refused call every object of the history is what it was; the retry then behaves like a first call."""
+    R = rng.random
+    pool = w.pool
+    labs = _distinct_labels(rng, pool, R() < 0.3)[:rng.randint(2, 4)]
+    emit(["NewNs", R() < 0.3])
+    n = len(w.nss) - 1
+    for x in labs[:rng.randint(0, len(labs))]:
+        emit(["NewTaxon", n, rng.choice(_variants(pool, x))])
+    emit(["NewList", n])
+    L = len(w.lists) - 1
+    mem = [w.tid(t) for t in w.nss[n]]
+    if mem and R() < 0.7:
+        emit(["NewTreeIn", L, None, [t for t in mem if R() < 0.8] or mem[:1]])
+
+    def foreign_tree():
+        emit(["NewNs", R() < 0.3])
+        s_ = len(w.nss) - 1
+        ids = []
+        for x in labs:
+            if R() < 0.85:
+                emit(["NewTaxon", s_, x if R() < 0.7 else rng.choice(_variants(pool, x))])
+                ids.append(len(w.taxa()) - 1)
+        if not ids:
+            emit(["NewTaxon", s_, labs[0]])
+            ids.append(len(w.taxa()) - 1)
+        rng.shuffle(ids)
+        emit(["MkTree", s_, ids])
+        return s_, len(w.trees) - 1, ids
+
+    for _ in range(rng.randint(1, 3)):
+        if w.naive():
+            return
+        s_, t, ids = foreign_tree()
+        good_s = ["SMigrate", True] if R() < 0.6 else (["SMigrate", False] if R() < 0.5 else ["SAdd"])
+        x = R()
+        if x < 0.14:
+            emit(["Append", L, t, ["SBogus"]])
+            emit(["Append", L, t, good_s])
+        elif x < 0.26:
+            i = rng.choice([0, 1, -1, 5])
+            emit(["Insert", L, i, t, ["SBogus"]])
+            emit(["Insert", L, i, t, good_s])
+        elif x < 0.40:
+            emit(["BadKw", ["Append", L, t, ["SMigrate", good_s[0] != "SMigrate" or good_s[1]]]])
+            emit(["Append", L, t, good_s])
+        elif x < 0.50:
+            i = rng.choice([0, 1, -1, 5])
+            emit(["BadKw", ["Insert", L, i, t, ["SMigrate", True]]])
+            emit(["Insert", L, i, t, good_s])
+        elif x < 0.58:
+            u = R() < 0.8
+            emit(["BadKw", ["MigrateTree", t, n, u]])
+            emit(["MigrateTree", t, n, u])
+            if R() < 0.6:
+                emit(["Append", L, t, ["SMigrate", True]])
+        elif x < 0.66:
+            emit(["NewList", s_])
+            sl = len(w.lists) - 1
+            emit(["Append", sl, t, ["SMigrate", True]])
+            u = R() < 0.8
+            if R() < 0.6:
+                emit(["BadKw", ["MigrateList", sl, n, u]])
+                emit(["MigrateList", sl, n, u])
+            else:
+                emit(["BadKw", ["ReconstructList", sl, u]])
+                emit(["ReconstructList", sl, u])
+        elif x < 0.74:
+            # a namespace argument that is not the list's own: TypeError; then without it
+            emit(["NewTreeIn", L, s_, ids[:2]])
+            emit(["NewTreeIn", L, None if R() < 0.6 else n, ids[:2]])
+        elif x < 0.80:
+            cs = bool(w.nss[n].is_case_sensitive)
+            spec = _labels_for_tree(rng, w, n, cs, rng.randint(1, 3))
+            sc = rng.choice(["Newick", "Nexus"])
+            emit(["ReadList", L, sc, cs, s_, [spec], 3])
+            emit(["ReadList", L, sc, cs, None if R() < 0.6 else n, [spec], 3])
+        elif x < 0.86:
+            # TreeArray.add_tree of a tree under another namespace: error; migrated first: accepted
+            emit(["ArrayAdd", n, t])
+            emit(["MigrateTree", t, n, True])
+            emit(["ArrayAdd", n, t])
+        elif x < 0.92:
+            emit(["Remove", L, t])
+            emit(["Pop", L, rng.choice([7, -9])])
+            emit(["Append", L, t, good_s])
+            emit(["Remove", L, t])
+        else:
+            emit(["NewMat", n])
+            m = len(w.mats) - 1
+            emit(["NewSeq", m, ids[0]])                 # a taxon outside the matrix' namespace: ValueError
+            emit(["BadKw", ["MigrateMat", m, s_, True]])
+            mem = [w.tid(q) for q in w.nss[n]]
+            if mem:
+                emit(["NewSeq", m, mem[0]])
+                emit(["NewSeq", m, mem[0]])             # a second sequence for the same taxon: ValueError
+                emit(["BadKw", ["ReconstructMat", m, True]])
+                emit(["MigrateMat", m, s_, True])
+    if R() < 0.4 and not w.naive():
+        # an attached data set refuses foreign namespaces for new components / reads
+        emit(["NewDs"])
+        d = len(w.dss) - 1
+        emit(["Attach", d, n])
+        emit(["DsAdd", d, ["ObjList", L], R() < 0.3])
+        others = [i for i in range(len(w.nss)) if i != n]
+        if others:
+            f = rng.choice(others)
+            y = R()
+            if y < 0.35:
+                k = rng.choice(["DsNewList", "DsNewMat"])
+                emit([k, d, f])
+                emit([k, d, None if R() < 0.5 else n])
+            elif y < 0.6:
+                emit(["DsReadFasta", d, f, labs[:2]])
+                emit(["DsReadFasta", d, None, labs[:2]])
+            elif y < 0.8:
+                emit(["BadKw", ["Unify", d, None, True]])
+                emit(["Unify", d, n, True])
+            else:
+                cs = bool(w.nss[n].is_case_sensitive)
+                emit(["DsReadTrees", d, "Newick", cs, f, [labs[:2]], 1])
+                emit(["DsReadTrees", d, "Newick", cs, None, [labs[:2]], 1])
+
+
 def _pick(rng, w, hazard):
+    op = _pick0(rng, w, hazard)
+    if op is not None and op[0] in BADKW_OPS and rng.random() < 0.04:
+        return ["BadKw", op]
+    return op
+
+
+def _pick0(rng, w, hazard):
     R = rng.random
     if w.dss and R() < 0.05:
         full = [i for i, ds in enumerate(w.dss) if len(ds.tree_lists) and len(ds.char_matrices)]
@@ -1368,8 +1649,14 @@ def oracle(case, obs):
     prev_dump = None
     n_removed = 0
     prev_rows = []
-    for step, (op, o) in enumerate(zip(case["ops"], obs)):
+    pending = None
+    for step, (op0, o) in enumerate(zip(case["ops"], obs)):
         dump = o["dump"]
+        if prev_dump is not None:
+            u = _refused(op0, o["out"], prev_dump, dump, prev_rows, o["rows"])
+            if u:
+                return ("after step %d %s (outcome %s): %s" % (step, op0, o["out"], u[0]), u[1] + ":" + _inner(op0)[0])
+        op = _inner(op0)        # a call whose extra keyword was never looked at is the plain call
         u = _storage_shared(op, dump)
         if u:
             return ("after step %d %s: %s%s" % (step, op, u[0], _consequence(case, obs, step)), u[1] + ":" + op[0])
@@ -1410,8 +1697,190 @@ def oracle(case, obs):
             u = _route_members(pool, op, prev_dump, dump) or _clone_label_map(pool, op, prev_dump, dump)
             if u:
                 return ("after step %d %s (outcome %s): %s" % (step, op, o["out"], u[0]), u[1] + ":" + op[0])
+            if o["out"][0] in ("OUnit", "OId"):
+                u = _first_member(pool, op, prev_dump, dump)
+                if u and u[1] == READ_LAST_KEY:
+                    # the listed finding leaves every object consistent: remember it and go on, so that it does
+                    # not hide what later imports of the same history do
+                    pending = pending or ("after step %d %s (outcome %s): %s" % (step, op, o["out"], u[0]), u[1])
+                elif u:
+                    return ("after step %d %s (outcome %s): %s" % (step, op, o["out"], u[0]), u[1] + ":" + op[0])
         prev = cur
         prev_dump = dump
+    return pending
+
+
+def _inner(op):
+    return op[1] if op[0] == "BadKw" else op
+
+
+def _documented_refusal(op, before):
+    """is the call one the API documents to refuse - and does the unchanged library refuse it before it touched
+    anything?  (Deliberately NOT in this class: an item assignment with an index out of range - the tree is
+    imported first -, reader errors in the middle of a source, reads whose case-sensitivity keyword contradicts
+    the namespace - DataSet.read has made the new tree list by then.)"""
+    if op[0] == "BadKw":
+        return "a keyword the API does not know (unify_taxa_by_labels)"
+    name = _base_name(op)
+    if name in ("Append", "Insert"):
+        return "an unrecognised taxon_import_strategy / keyword"
+    if name == "NewTreeIn":
+        return "new_tree with a taxon_namespace that is not the list's"
+    if name == "ReadList" and op[4] is not None and op[4] != before["lists"][op[1]][0]:
+        return "read with a taxon_namespace that is not the list's"
+    if name in ("DsNewList", "DsNewMat", "DsReadTrees", "DsReadFasta"):
+        att = before["dss"][op[1]][0]
+        ns = op[2] if name in ("DsNewList", "DsNewMat", "DsReadFasta") else op[4]
+        if att is not None and ns is not None and ns != att:
+            return "a taxon_namespace that is not the attached one"
+        return None
+    if name == "ArrayAdd":
+        return "a tree under another namespace offered to a TreeArray"
+    if name in ("Pop", "Remove"):
+        return "an index out of range / a tree that is not a member"
+    if name == "NewSeq":
+        return "new_sequence for a taxon outside the namespace / a taxon that has a sequence"
+    if name == "SetRow":
+        return "a row key that does not resolve"
+    return None
+
+
+def _refused(op, out, before, after, rows_b, rows_a):
+    """A refused operation changes nothing: when one of the calls above ends in its exception, every namespace,
+    tree, list, matrix (rows and cells), data set, memo and storage object of the history is what it was before
+    the call, and no taxon object has been made."""
+    if out[0] != "OErr":
+        return None
+    why = _documented_refusal(op, before)
+    if why is None:
+        return None
+    for k in ("lab", "ns", "trees", "lists", "mats", "dss", "memos", "mmap", "ltl"):
+        if before[k] != after[k]:
+            diff = [(i, b, a) for i, (b, a) in enumerate(zip(before[k], after[k])) if a != b][:2]
+            return ("the call was refused (%s) but changed %s: %s%s" % (why, k, diff,
+                    "" if len(before[k]) == len(after[k]) else "; %d -> %d entries" % (len(before[k]), len(after[k]))),
+                    "refused-operation-changed-state")
+    if rows_b != rows_a:
+        return ("the call was refused (%s) but changed matrix rows" % why, "refused-operation-changed-state")
+    return None
+
+
+READ_LAST_KEY = "read-resolves-duplicate-label-to-last-member"      # listed in known_findings.txt
+READ_CLAUSE_ON = True
+
+
+def _first_member(pool, op, before, after):
+    """Every import route resolves a label to the FIRST member of the target namespace that matches it under the
+    namespace's own case rule (what TaxonNamespace.require_taxon documents; members are only ever appended, so
+    the first match cannot change while a step runs): append / insert / item and slice assignment / extend / += /
+    + of plain trees (the tree is migrated), of a TreeList (its trees are cloned), Tree- / TreeList- /
+    CharacterMatrix.migrate_taxon_namespace and .reconstruct_taxon_namespace with unify_taxa_by_label=True,
+    DataSet.unify_taxon_namespaces.  Otherwise leaves with equal labels, brought into one list by two routes,
+    sit on different Taxon objects as soon as the namespace holds a label twice (taxon_import_strategy='add').
+    Nodes / rows the caller's own taxon_mapping_memo names are the caller's choice and exempt."""
+    name = _base_name(op)
+    memo = _memo_in(op, before)
+    lab = after["lab"]
+
+    def first(n, x):
+        cs, members = after["ns"][n]
+        k = pool[lab[x]] if cs else pool[lab[x]].lower()
+        for m in members:
+            if (pool[lab[m]] if cs else pool[lab[m]].lower()) == k:
+                return m
+        return None
+
+    def bad(what, n, x, y):
+        f = first(n, x)
+        if f is not None and f != y:
+            cs, members = after["ns"][n]
+            return ("%s: label %r was resolved to taxon #%d (member %d of namespace %d), but the first member of that "
+                    "%s namespace matching it is #%d (member %d): require_taxon - every other import route - takes "
+                    "the first one" % (what, pool[lab[x]], y, members.index(y) if y in members else -1, n,
+                                       "case-sensitive" if cs else "case-insensitive", f, members.index(f)),
+                    "import-not-first-matching-member")
+        return None
+
+    if name in ("ReadList", "DsReadTrees"):
+        if not READ_CLAUSE_ON:
+            return None
+        for i in range(len(before["trees"]), len(after["trees"])):
+            n, refs = after["trees"][i]
+            cs, members = after["ns"][n]
+            keyf = (lambda q: pool[lab[q]]) if cs else (lambda q: pool[lab[q]].lower())
+            for y in refs:
+                u = bad("tree %d (read)" % i, n, y, y)
+                if u:
+                    same = [m for m in members if keyf(m) == keyf(y)]
+                    if len(same) >= 2 and y == same[-1]:
+                        # the listed finding, and nothing else: the namespace holds SEVERAL members matching the
+                        # label and the readers' symbol table (later members overwrite earlier ones) took the last
+                        return (u[0] + " [the namespace holds %d members matching the label; the reader took the LAST]"
+                                % len(same), READ_LAST_KEY)
+                    return u        # any other disagreement with require_taxon: unlisted
+        return None
+    unify, targets = True, set()
+    if name in ("Append", "Insert"):
+        s_ = op[3] if name == "Append" else op[4]
+        if s_ != ["SMigrate", True]:
+            return None
+    elif name in ("MigrateTree", "MigrateList", "MigrateMat"):
+        unify = bool(op[3])
+    elif name in ("ReconstructTree", "ReconstructList", "ReconstructMat"):
+        unify = bool(op[2])
+    elif name not in ("SetItem", "Extend", "IAdd", "Add", "SetSlice", "Unify"):
+        return None
+    if not unify:
+        return None
+    tmats = []
+    if name == "ReconstructTree":
+        targets.add(op[1])
+    elif name in ("ReconstructList", "MigrateList"):
+        targets |= set(before["lists"][op[1]][1])
+    elif name == "Unify":
+        for l in before["dss"][op[1]][2]:
+            targets |= set(before["lists"][l][1])
+        tmats = list(before["dss"][op[1]][3])
+    elif name in ("MigrateMat", "ReconstructMat"):
+        tmats = [op[1]]
+    twice = set()
+    if op[0] in ("MigrateListM", "ReconstructListM"):
+        held = before["lists"][op[1]][1]
+        twice = set(t for t in held if held.count(t) > 1)
+    # (1) tree objects the step migrated (namespace changed) or re-mapped in place
+    for i, (b, a) in enumerate(zip(before["trees"], after["trees"])):
+        if (b[0] == a[0] and i not in targets) or i in twice or len(b[1]) != len(a[1]):
+            continue
+        for x, y in zip(b[1], a[1]):
+            if x in memo:
+                continue
+            u = bad("tree %d (migrated)" % i, a[0], x, y)
+            if u:
+                return u
+    # (2) clones of the trees of a TreeList
+    if name in ("Extend", "IAdd", "Add", "SetSlice") and op[-1][0] == "SrcList":
+        clones = list(range(len(before["trees"]), len(after["trees"])))
+        sources = list(before["lists"][op[-1][1]][1])
+        if name == "Add":
+            sources = list(before["lists"][op[1]][1]) + sources
+        if len(clones) == len(sources):
+            for c, s0 in zip(clones, sources):
+                tn, refs_c = after["trees"][c]
+                if before["trees"][s0][0] == tn or len(refs_c) != len(before["trees"][s0][1]):
+                    continue
+                for x, y in zip(before["trees"][s0][1], refs_c):
+                    u = bad("tree %d (clone of tree %d)" % (c, s0), tn, x, y)
+                    if u:
+                        return u
+    # (3) rows of migrated / reconstructed matrices (re-keyed under the same label up to case)
+    for m in tmats:
+        if m >= len(after["mats"]) or any(x in memo for x in before["mats"][m][1]):
+            continue
+        n, rows = after["mats"][m]
+        for y in rows:
+            u = bad("matrix %d (row)" % m, n, y, y)
+            if u:
+                return u
     return None
 
 
@@ -1673,6 +2142,13 @@ def c_pairs(ps):
     return clist([cpair(str(int(a)), str(int(b))) for a, b in ps])
 
 
+def c_op8(op):
+    """a term of C11W8Model.op8"""
+    if op[0] == "BadKw":
+        return "(BadKw %s)" % c_op(op[1])
+    return "(Op7 %s)" % c_op(op)
+
+
 def c_op(op):
     """a term of C11W7Model.op7"""
     n = op[0]
@@ -1783,7 +2259,7 @@ def lower_table(pool):
 
 def to_coq(case, obs):
     exp = clist([cpair(c_out(o["out"]), c_dump7(o["dump"])) for o in obs])
-    return "(mkCase7 %s %s %s)" % (lower_table(case["pool"]), clist([c_op(o) for o in case["ops"]]), exp)
+    return "(mkCase8 %s %s %s)" % (lower_table(case["pool"]), clist([c_op8(o) for o in case["ops"]]), exp)
 
 
 def nontrivial(case, obs):
@@ -1894,6 +2370,26 @@ def check_witnesses(ctx):
                        obs[-1]["out"] == ["ORecon"] and len(obs[-1]["rows"][0]) == len(obs[-2]["rows"][0]) == 2
                        and _sequences_lost(last, obs[-2]["rows"], obs[-1]["rows"]) is None)
     ctx.obligation("witness histories of Proofs/C11Examples.v = the histories replayed on the library", ok)
+    # wave 8: the histories of Proofs/C11W8Examples.v are wave8_cases(); on the library they run clean, the refused
+    # steps are refused, and the dormant read-route clause (finding candidate) does fire on history 0 + a read
+    try:
+        src8 = core.strip_coq_comments(open(os.path.join(core.COQ, "Proofs", "C11W8Examples.v")).read())
+    except OSError:
+        src8 = ""
+    ok8 = True
+    for i, c in enumerate(wave8_cases()):
+        m = re.search(r"Definition w8_history%d : list op8 :=(.*?)\.\s*\n" % i, src8, re.S)
+        ok8 &= bool(m) and _norm(m.group(1)) == _norm(clist([c_op8(o) for o in c["ops"]]))
+        obs = observe(c)
+        ok8 &= oracle(c, obs) is None and all(not o["naive"] for o in obs)
+    ctx.obligation("histories of Proofs/C11W8Examples.v = wave8_cases(), and they run on the implementation without violating the property", ok8)
+    c = wave8_read_case()
+    obs = observe(c)
+    v = oracle(c, obs)
+    d = obs[-1]["dump"]
+    ctx.obligation("listed finding %s reproduces on the implementation (appended tree: a on taxon 0, read tree: a on taxon 5)" % READ_LAST_KEY,
+                   bool(v and v[1] == READ_LAST_KEY and d["trees"][4][1] == [0] and d["trees"][5][1] == [5, 1]
+                        and all(not o["naive"] for o in obs)))
     # replay: every refutation witness must fail on the implementation exactly at its last step
     for name, prefix, last, key in WITNESSES:
         case = {"pool": P6, "ops": EX_BASE + prefix + [last]}
@@ -1940,6 +2436,9 @@ def fixed_cases():
         yield c
     for c in wave7_cases():
         yield c
+    for c in wave8_cases():
+        yield c
+    yield wave8_read_case()
     yield H(["NewMat", 0], ["NewSeq", 0, 0], ["SetRow", 0, ["KeyLabel", 4]], ["SetRow", 0, ["KeyIndex", -1]], ["SetRow", 0, ["KeyTaxon", 2]],
             ["ReconstructMat", 0, True], ["ReconstructMat", 0, False], ["UpdateMat", 0], ["MigrateMat", 0, 1, False], ["MigrateMat", 0, 2, True], ["PurgeMat", 0])
 
@@ -1966,6 +2465,40 @@ def wave7_cases():
     yield H(["NewMat", 1], ["NewSeq", 0, 2], ["NewSeq", 0, 3], ["NewMemo", [[2, 1]]], ["MigrateMatM", 0, 0, True, 0],
             ["NewMemo", [[1, 4], [6, 5]]], ["ReconstructMatM", 0, True, 1], ["MigrateMatM", 0, 2, False, 1],
             ["AppendM", 0, 1, ["SAdd"], 0], ["InsertM", 0, 0, 2, ["SBogus"], 0])
+
+
+def wave8_cases():
+    """seeded/C11-10: two trees ADDED (namespace 0 = A B a C A a: labels twice), then migrate- and clone-style imports
+    of trees carrying those labels; seeded/C11-9: refused calls (unknown strategy, misspelt keyword, foreign
+    namespace argument) and the corrected retry.  On EX_BASE: tree 0 (A B of ns0), tree 1 (a C of ns1), tree 2
+    (A a of the case-sensitive ns2), tree 3 (a A A of ns2); lists 0, 1, 2 in ns0, ns1, ns2."""
+    H = lambda *ops: {"pool": P6, "ops": EX_BASE + [list(o) for o in ops]}
+    dup = [["Append", 0, 1, ["SAdd"]], ["Append", 0, 2, ["SAdd"]],
+           ["NewNs", False], ["NewTaxon", 3, 3], ["NewTaxon", 3, 2], ["NewTaxon", 3, 1], ["NewList", 3]]
+    mk = lambda: ["NewTreeIn", 3, None, [6, 7, 8]]
+    yield H(*(dup + [mk(), ["MkTree", 3, [7, 6]], ["Append", 0, 5, M1], ["Extend", 0, ["SrcList", 3]],
+                     ["IAdd", 0, ["SrcList", 3]], ["SetSlice", 0, 1, 2, ["SrcList", 3]], ["Add", 0, ["SrcList", 3]]]))
+    yield H(*(dup + [mk(), mk(), ["Add", 0, ["SrcList", 3]], ["MkTree", 3, [8, 6]], ["Insert", 0, 0, 10, M1],
+                     ["MkTree", 3, [6]], ["SetItem", 0, -1, 11], ["MigrateList", 3, 0, True], ["ReconstructList", 0, True]]))
+    yield H(["Append", 0, 1, ["SBogus"]], ["Append", 0, 1, M1], ["BadKw", ["Insert", 0, 0, 2, M1]], ["Insert", 0, 0, 2, M1],
+            ["BadKw", ["Append", 0, 3, ["SAdd"]]], ["BadKw", ["MigrateTree", 0, 1, True]], ["MigrateTree", 0, 1, True],
+            ["BadKw", ["Append", 1, 0, M1]], ["BadKw", ["ReconstructList", 0, True]], ["BadKw", ["MigrateList", 0, 2, False]],
+            ["NewTreeIn", 0, 1, [0]], ["NewTreeIn", 0, 0, [0]], ["ArrayAdd", 2, 0], ["Remove", 2, 0], ["Pop", 2, 0])
+    yield H(["NewMat", 0], ["NewSeq", 0, 2], ["NewSeq", 0, 0], ["NewSeq", 0, 0], ["BadKw", ["MigrateMat", 0, 1, True]],
+            ["BadKw", ["ReconstructMat", 0, True]], ["MigrateMat", 0, 1, True], ["NewDs"], ["Attach", 0, 1],
+            ["DsAdd", 0, ["ObjMat", 0], False], ["DsNewList", 0, 0], ["DsNewList", 0, 1], ["DsReadFasta", 0, 2, [0, 1]],
+            ["DsReadFasta", 0, None, [0, 1]], ["BadKw", ["Unify", 0, None, True]], ["Unify", 0, None, True],
+            ["NewMemo", []], ["BadKw", ["AppendM", 0, 1, M1, 0]], ["AppendM", 0, 1, M1, 0],
+            ["BadKw", ["InsertM", 0, 0, 2, ["SBogus"], 0]], ["BadKw", ["MigrateTreeM", 2, 0, True, 0]],
+            ["BadKw", ["ReconstructListM", 0, True, 0]])
+
+
+def wave8_read_case():
+    """the listed finding read-resolves-duplicate-label-to-last-member: namespace 0 = A B a C A a after two ADDs; a tree
+    appended by label takes taxon 0 for a, a tree read from Newick takes taxon 5"""
+    return {"pool": P6, "ops": EX_BASE + [["Append", 0, 1, ["SAdd"]], ["Append", 0, 2, ["SAdd"]], ["NewNs", False],
+                                          ["NewTaxon", 3, 3], ["MkTree", 3, [6]], ["Append", 0, 4, M1],
+                                          ["ReadList", 0, "Newick", False, None, [[3, 1]], 0]]}
 
 
 def add_then_reconstruct_cases():
@@ -2020,9 +2553,9 @@ def search(ctx, budget_s):
     t0 = time.time()
     rng = random.Random(ctx.seed + 4711)
     n = 0
-    first = list(wave7_cases()) + list(add_then_reconstruct_cases())
+    first = list(wave8_cases()) + list(wave7_cases()) + list(add_then_reconstruct_cases())
     while time.time() - t0 < budget_s and n < 20000:
-        case = first[n] if n < len(first) else gen_case(rng, 20, shape=(None, "copy", "memo", None)[n % 4])
+        case = first[n] if n < len(first) else gen_case(rng, 20, shape=(None, "dup", "copy", "refuse", "memo", "dup", None, "refuse")[n % 8])
         obs = observe(case)
         v = oracle(case, obs)
         n += 1
@@ -2121,6 +2654,14 @@ def run(tier, seed, replay=None):
         "reads: the readers are represented by their label look-up (symbol mapper: last matching member, FASTA: "
         "require_taxon) on Newick / TREES-only NEXUS / FASTA sources without numeric labels",
         "TreeList.extend(self) / `l += l` do not terminate in the library; modelled as the outcome Hang and never executed",
+        "wave 8: coq/Model/C11W8Model.v adds BadKw o (the call o with the unknown keyword unify_taxa_by_labels=True); the "
+        "harness issues it for append / insert (with and without memo), Tree- / TreeList- / CharacterMatrix- migrate / "
+        "reconstruct (with and without memo) and DataSet.unify_taxon_namespaces only",
+        "oracle clause 'first matching member' is applied to the migrate / clone / matrix routes; the Newick / NEXUS read "
+        "routes take the LAST matching member in the unchanged library (model: last_match in read_refs; Props/C11.v "
+        "first_match_example): listed finding %s (fires only when the namespace holds several members matching the label and "
+        "the reader took the last of them; any other disagreement with require_taxon is reported under "
+        "import-not-first-matching-member:<Op>)" % READ_LAST_KEY,
     ]
     if replay:
         r = json.load(open(replay))["replay"]
@@ -2145,8 +2686,8 @@ def run(tier, seed, replay=None):
     for c in cases:
         for o in c["ops"]:
             ctx.count(o[0])
-    core.corr_stage(ctx, cases, observe, to_coq, HEADER, "case_ok7", oracle=oracle,
-                    show_fn="case_run7", nontrivial=nontrivial, search=search, shard=48 if tier == "quick" else 160,
+    core.corr_stage(ctx, cases, observe, to_coq, HEADER, "case_ok8", oracle=oracle,
+                    show_fn="case_run8", nontrivial=nontrivial, search=search, shard=48 if tier == "quick" else 160,
                     sample_fn=lambda c, o: {"ops": c["ops"][-6:], "pool": c["pool"], "last": o[-1]["dump"] if o else None})
     return ctx.finish(level="proof",
                       rule="operation histories generated online against the live library (set-up of 2-3 namespaces with "
@@ -2162,6 +2703,17 @@ def run(tier, seed, replay=None):
                            "or empty) handed to append / insert / Tree-, TreeList-, CharacterMatrix-.migrate / reconstruct calls "
                            "into up to three DIFFERENT namespaces; every container, every memo and the identity classes of the "
                            "_taxon_sequence_map dicts / _trees lists are re-observed after every step; "
-                           "plus 31 fixed histories (the witnesses of the `_refuted` theorems, the non-vacuity history, one history per group of call sites) for the call sites named in the property; thorough adds every history of length <= 2 over a 53-op alphabet on a prepared state (cut at the first violating step); non-trivial = >= 6 steps, >= 2 "
+                           "wave 8: 14% of the set-ups build a namespace with duplicate-label members (two or three foreign trees over "
+                           "the same / case-variant labels ADDED with taxon_import_strategy='add', case-sensitive sources into "
+                           "case-insensitive targets included) and then mix 2-5 migrate-style imports (append / insert / []= / extend, "
+                           "slice assignment of plain trees / Tree-, TreeList-, CharacterMatrix.migrate) with clone-style imports (extend / "
+                           "+= / + / slice assignment from a TreeList) and reads of trees carrying those labels: every route must "
+                           "resolve a label to the FIRST member matching it under the namespace's rule; 12% run refused calls (unknown "
+                           "strategy string, misspelt keyword unify_taxa_by_labels on 17 entry points, foreign taxon_namespace argument "
+                           "to new_tree / read / DataSet.new_tree_list / new_char_matrix / read, foreign tree to TreeArray.add_tree, "
+                           "non-member remove, index out of range, taxon outside the matrix' namespace) each followed by the corrected "
+                           "call: after a refused call EVERY object of the history is what it was; 4% of the eligible random calls "
+                           "carry the misspelt keyword; "
+                           "plus 36 fixed histories (the witnesses of the `_refuted` theorems, the non-vacuity history, one history per group of call sites) for the call sites named in the property; thorough adds every history of length <= 2 over a 53-op alphabet on a prepared state (cut at the first violating step); non-trivial = >= 6 steps, >= 2 "
                            "namespaces and at least one step that re-mapped or cloned a tree / matrix into a namespace; "
                            "distinct by full case content")
